@@ -226,6 +226,9 @@ func (t *NEP17Transfer) DecodeBinary(r *io.BinReader) {
 	t.Block = r.ReadU32LE()
 	t.Timestamp = r.ReadU64LE()
 	amount := r.ReadVarBytes(bigint.MaxBytesLen)
+	if r.Err != nil {
+		return
+	}
 	t.Amount = bigint.FromBytes(amount)
 }
 
